@@ -9,6 +9,7 @@ import Driver.C13
 import Driver.C07
 import Driver.C18
 import Driver.Sched
+import Driver.C11
 
 open Driver
 
@@ -54,6 +55,9 @@ def main (args : List String) : IO UInt32 := do
     return 0
   | ["c18"] =>
     forLines stdin fun l => stdout.putStrLn (c18Line (fields l))
+    return 0
+  | ["c11subst"] =>
+    forLines stdin fun l => stdout.putStrLn (c11SubstLine (fields l))
     return 0
   | ["c13"] =>
     forLines stdin fun l => stdout.putStrLn (c13Line (fields l))
